@@ -13,17 +13,13 @@ OBLIGATIONS = [
     # get / set / histories
     "C25/P_get_spec.v", "C25/P_set_spec.v", "C25/P_history_spec.v", "C25/P_history_from_zero.v",
     # the canonical-format checkers
-    "C25/P_has_canonical_format_spec.v", "C25/P_is_canonical_complete.v", "C25/P_is_canonical_sound_guarded.v",
-    "C25/P_is_canonical_sound_refuted.v",
+    "C25/P_has_canonical_format_spec.v", "C25/P_is_canonical_complete.v", "C25/P_is_canonical_spec.v",
     # construction from coordinate lists
     "C25/P_from_coo_spec.v", "C25/P_sort_indices_spec.v", "C25/P_sum_duplicates_spec.v",
     # operations
-    "C25/P_binop_spec.v", "C25/P_transpose_spec.v", "C25/P_scale_rows_spec.v", "C25/P_scale_rows_zero.v",
-    "C25/P_scale_columns_spec.v", "C25/P_jacobian_spec.v",
-    # operations where the transcribed code does not have the property: refutation + guarded theorem
-    "C25/P_conjugate_refuted.v", "C25/P_conjugate_guarded.v", "C25/P_conjugate_entries.v",
-    "C25/P_diagonal_refuted.v", "C25/P_diagonal_guarded.v",
-    "C25/P_matmat_refuted.v", "C25/P_matmat_guarded.v",
+    "C25/P_binop_spec.v", "C25/P_transpose_spec.v", "C25/P_conjugate_spec.v", "C25/P_scale_rows_spec.v",
+    "C25/P_scale_rows_zero.v", "C25/P_scale_columns_spec.v", "C25/P_diagonal_spec.v", "C25/P_jacobian_spec.v",
+    "C25/P_matmat_spec.v",
     "C25/P_nonvacuous.v",
 ]
 
@@ -171,16 +167,13 @@ def gen_transpose(rng, tier):
     r, c = dims(rng, tier)
     cmds, _ = canonical_matrix(rng, "A", r, c)
     cmds += ["tr B A", "canon B", "tr C B", "eq C A", "ctr D A", "canon D"]
-    if r == c or rng.random() < 0.15:
-        cmds += ["conj C A", "canon C"]       # non-square: dimensions come out swapped (known finding)
-    else:
-        cmds += ["ctr C A", "tr D C"]         # conjugate via two transposes
+    cmds += ["conj C A", "canon C", "ctr B A", "tr D B", "eq D C"]   # conjugate = transpose of conjugate-transpose
     return cmds
 
 
 def gen_mm(rng, tier):
     r, k = dims(rng, tier)
-    c = rng.randint(1, k) if rng.random() < 0.9 else k + rng.randint(1, 2)   # wider B: out-of-bounds temporaries
+    c = rng.randint(1, k) if rng.random() < 0.6 else k + rng.randint(1, 3)   # also B wider than A
     ca, _ = canonical_matrix(rng, "A", r, k)
     cb, _ = canonical_matrix(rng, "B", k, c)
     cmds = ca + cb + ["mm C A B", "canon C"]
@@ -192,11 +185,11 @@ def gen_mm(rng, tier):
 def gen_diag(rng, tier):
     r, c = dims(rng, tier)
     d = dense_random(rng, r, c, rng.choice([0.2, 0.5, 0.9]))
-    if rng.random() < 0.7:
+    if rng.random() < 0.3:
         for i in range(min(r, c)):
             if d[i][i] is None:
-                d[i][i] = val(rng)            # full diagonal: the guard of diagonal_guarded
-    return [raw_of_dense("A", d, r, c), "canon A", "diag A"]
+                d[i][i] = val(rng)            # full diagonal
+    return [raw_of_dense("A", d, r, c), "canon A", "diag A", "tr B A", "diag B"]
 
 
 def gen_scale(rng, tier):
@@ -253,8 +246,15 @@ def gen_malformed(rng, tier):
                 j.append(k)
                 x.append(v)
         p.append(len(j))
-    q = rng.randrange(5)
-    if q == 0 and len(p) > 2:
+    q = rng.randrange(7)
+    if q == 5:
+        p = [v + 1 for v in p]                # p_[0] != 0
+        j = [0] + j
+        x = ["1"] + x
+    elif q == 6:
+        p = [0] + [rng.choice([0, 0, 1, 3]) for _ in range(r - 1)] + [0]   # nothing stored, row pointers arbitrary
+        j, x = [], []
+    elif q == 0 and len(p) > 2:
         i = rng.randrange(1, len(p) - 1)
         p[i], p[i - 1] = p[i - 1], p[i]       # possibly non-monotone
     elif q == 1:
@@ -295,12 +295,14 @@ CORPUS = [
     "zero A 2 7 ; set A 1 3 1 ; set A 1 1 2 ; set A 1 5 3 ; set A 1 0 4 ; set A 1 6 5 ; set A 1 2 6 ; set A 1 4 7 ; set A 0 6 8 ; set A 1 4 0_1 ; set A 1 4 0 ; get A 1 4 ; get A 1 5 ; get A 0 6 ; canon A",
     # from_coo: duplicates summed (also to zero), unsorted input
     "coo A 3 3 7 2 0 2 0 2 1 2 1 1 0 1 1 0 1 4 1 2 3 -2 5 -4 ; canon A ; get A 2 1 ; get A 0 1 ; get A 2 0",
-    # known findings (classes listed in known_findings.txt)
+    # the inputs that exposed the defects repaired in the library (see `fixed:` lines in known_findings.txt)
     "raw A 1 2 2 0 1 1 1 1 1 ; diag A",
     "zero A 2 2 ; diag A",
     "raw A 1 2 2 0 1 1 1 1 1_2 ; conj B A ; canon B",
     "raw A 2 1 3 0 1 2 2 0 0 2 1 2 ; raw B 1 3 2 0 2 2 0 2 2 3 4 ; mm C A B",
     "raw A 2 2 3 0 2 3 3 0 1 1 3 1 2 5 ; raw B 2 2 3 0 2 4 4 0 1 0 1 4 3 4 1 1 ; mm C A B ; canon C ; get C 0 1",
+    "raw A 2 2 3 0 5 0 0 0 ; canon A",
+    "raw A 1 2 2 1 2 2 0 1 2 5 7 ; canon A",
 ]
 
 
@@ -422,7 +424,15 @@ def explore(ctx, drv, model, cases, search=False):
         ifields = canon.split(";")
         rep = {"family": "C25", "case": c, "impl": i, "model": m}
         last = ifields[-1] if ifields else ""
-        if last.startswith("CRASH") or last == "HANG" or last == "UNCAUGHT" or last.startswith("NOOUTPUT"):
+        if last.startswith("ORACLECRASH") or last == "ORACLEHANG":
+            # the result of command k-1 was printed; get()/is_canonical() on it killed the oracle
+            k = max(len(ifields) - 2, 0)
+            op = cmds[k].split()[0] if k < len(cmds) else "?"
+            ctx.violation("C25/%s-result-unusable" % op,
+                          "program `%s`: reading back the result of command %d (`%s`) through get()/is_canonical() ends with %s" % (
+                              c, k + 1, cmds[k] if k < len(cmds) else "?", last[6:]), rep)
+            ifields = ifields[:-1]
+        elif last.startswith("CRASH") or last == "HANG" or last == "UNCAUGHT" or last.startswith("NOOUTPUT"):
             k = len(ifields) - 1
             op = cmds[k].split()[0] if k < len(cmds) else "?"
             ctx.violation("C25/%s-crash" % op,
@@ -434,7 +444,10 @@ def explore(ctx, drv, model, cases, search=False):
                 continue
             cls = item.split()[0]                      # e.g. mm:canon
             ctx.violation("C25/" + cls.replace(":", "-"), "program `%s`: %s" % (c, item), rep)
-        if [norm_field(f) for f in ifields] != [norm_field(f) for f in m.split(";")]:
+        mfields = m.split(";")
+        if last.startswith("ORACLE"):
+            mfields = mfields[:len(ifields)]
+        if [norm_field(f) for f in ifields] != [norm_field(f) for f in mfields]:
             ndis += 1
             if ndis <= 3:
                 ctx.broken.append({"kind": "correspondence", "name": "C25 CSR program",
